@@ -32,6 +32,26 @@ fn make_pool(shape: &str, seed: u64) -> &'static [u8] {
     Box::leak(v.into_boxed_slice())
 }
 
+thread_local! {
+    static ACCOUNT: std::cell::Cell<bool> = const { std::cell::Cell::new(false) };
+    static DRAINED: std::cell::Cell<(u64, u64)> = const { std::cell::Cell::new((0, 0)) }; // (bytes, FE FD occurrences incl. across drains)
+    static LAST: std::cell::Cell<u8> = const { std::cell::Cell::new(0) };
+}
+
+fn account(s: &[u8]) {
+    let (mut n, mut st) = DRAINED.with(|c| c.get());
+    let mut last = LAST.with(|c| c.get());
+    for b in s {
+        if last == 0xFE && *b == 0xFD {
+            st += 1;
+        }
+        last = *b;
+    }
+    n += s.len() as u64;
+    DRAINED.with(|c| c.set((n, st)));
+    LAST.with(|c| c.set(last));
+}
+
 /// Drains everything consumable; returns the drained bytes (only when `keep`).
 fn drain_all(c: &mut ConsumingIovec<'_>, how: &str, keep: bool) -> Vec<u8> {
     let mut out = Vec::new();
@@ -41,8 +61,11 @@ fn drain_all(c: &mut ConsumingIovec<'_>, how: &str, keep: bool) -> Vec<u8> {
             break;
         }
         let n: usize = sp.iter().map(|s| s.len()).sum();
-        if keep {
-            for s in sp {
+        for s in sp {
+            if ACCOUNT.with(|c| c.get()) {
+                account(s);
+            }
+            if keep {
                 out.extend_from_slice(s);
             }
         }
@@ -88,6 +111,8 @@ pub fn drive_footprint(ops: &str, trace: &str) {
         let live0 = ByteArena::num_live_bytes();
         out.emit(&json!({"run":run.run,"ev":"reset","kind":kind,"total":total,"objects": if kind == "pipeline" {2} else {1},
                          "live":live0,"chunks":ByteArena::num_live_chunks()}));
+        DRAINED.with(|c| c.set((0, 0)));
+        LAST.with(|c| c.set(0));
         let res = guarded(|| {
             let mut streamed = 0usize;
             let mut i = 0usize;
@@ -136,7 +161,9 @@ pub fn drive_footprint(ops: &str, trace: &str) {
                         if drain_every > 1 && i % drain_every != 0 {
                             continue;
                         }
+                        ACCOUNT.with(|c| c.set(true));
                         let bytes = drain_all(&mut enc.consumer(), &how, kind == "pipeline");
+                        ACCOUNT.with(|c| c.set(false));
                         if kind == "pipeline" && !bytes.is_empty() {
                             let mut src = &bytes[..];
                             while !src.is_empty() {
@@ -157,7 +184,17 @@ pub fn drive_footprint(ops: &str, trace: &str) {
                         }
                         sample(&mut out, streamed, "drained", &enc.consumer(), 0);
                     }
-                    drop(enc);
+                    // finish the encoder: the complete output length is a measurement the length bound of C02 is checked on
+                    let rest = enc.finish();
+                    ACCOUNT.with(|c| c.set(true));
+                    for sl in rest.stable_prefix() {
+                        account(sl);
+                    }
+                    ACCOUNT.with(|c| c.set(false));
+                    let (n, st) = DRAINED.with(|c| c.get());
+                    out.emit(&json!({"run":run.run,"ev":"lengths","in_hi":(streamed >> 20),"in_lo":(streamed & 0xFFFFF),
+                                     "out_hi":(n >> 20),"out_lo":(n & 0xFFFFF),"stuff":st,"pending":rest.has_pending_backrefs() as u8}));
+                    drop(rest);
                     drop(dec);
                     drop(producer_arena);
                 }
